@@ -355,33 +355,46 @@ package circuitbreaker
 //@   modifies nothing
 //@ spec func allValidLists(m) = (forall r Str :: has(m, r) ==> allocated(base(m[r]))) && (forall r Str :: forall k Int :: has(m, r) && 0 <= k && k < len(m[r]) ==> validRule(m[r][k]))
 //@ func onRuleUpdate(rawResRulesMap) err
-//@   props C13
+//@   props C13, C14
 //@   requires[holds-the-update-lock]{C15} wlockcount(updateRuleMux) > 0
-//@   requires breakers != nil && breakerRules != nil
+//@   requires breakers != nil && breakerRules != nil && allocated(breakers) && allocated(breakerRules)
 //@   ensures[raw-recorded] err == nil ==> currentRules == rawResRulesMap
 //@   ensures[new-tables-swapped-in] err == nil ==> breakers != nil && fresh(breakers) && breakerRules != nil && fresh(breakerRules)
 //@   ensures[only-valid-rules-enforced] err == nil ==> allValidLists(breakerRules)
+//@   let pub = breakers
+//@   ensures[published-lists-not-rewritten]{C13,C15} forall r Str :: forall k Int :: old(has(pub, r)) && old(allocated(base(pub[r]))) && 0 <= k && k < len(old(pub[r])) ==> old(pub[r])[k] == old(pub[r][k])
 //@   modifies breakers, breakerRules, currentRules
 //@   loop 1:
 //@     invariant[valid-map-is-new] validResRulesMap != nil && fresh(validResRulesMap) && allValidLists(validResRulesMap)
-//@     invariant[nothing-else-written] frame()
+//@     invariant[nothing-else-written]{seq} frame()
+//@     invariant[published-lists-untouched]{conc} forall r Str :: forall k Int :: old(has(pub, r)) && old(allocated(base(pub[r]))) && 0 <= k && k < len(old(pub[r])) ==> old(pub[r])[k] == old(pub[r][k])
 //@   loop 2:
 //@     invariant[valid-map-is-new] validResRulesMap != nil && fresh(validResRulesMap) && allValidLists(validResRulesMap)
 //@     invariant[valid-list-is-new] (cap(validResRules) == 0 || fresh(base(validResRules))) && (forall k Int :: 0 <= k && k < len(validResRules) ==> validRule(validResRules[k]))
 //@     invariant[valid-list-is-not-in-the-map-yet] forall r Str :: has(validResRulesMap, r) ==> base(validResRulesMap[r]) != base(validResRules)
-//@     invariant[nothing-else-written] frame()
+//@     invariant[nothing-else-written]{seq} frame()
+//@     invariant[published-lists-untouched]{conc} forall r Str :: forall k Int :: old(has(pub, r)) && old(allocated(base(pub[r]))) && 0 <= k && k < len(old(pub[r])) ==> old(pub[r])[k] == old(pub[r][k])
 //@   loop 3:
 //@     invariant[clone-is-new] breakersClone != nil && fresh(breakersClone) && (forall r Str :: has(breakersClone, r) ==> fresh(base(breakersClone[r])))
+//@     invariant[clone-lists-allocated] forall r Str :: has(breakersClone, r) ==> allocated(base(breakersClone[r])) && base(breakersClone[r]) != 0
+//@     invariant[clone-domain] forall r Str :: has(breakersClone, r) ==> has(breakers, r) && sel(#seen, r) && len(breakersClone[r]) == len(breakers[r])
+//@     invariant[clone-is-complete-so-far] forall r Str :: has(breakers, r) && sel(#seen, r) ==> has(breakersClone, r)
+//@     invariant[clone-lists-are-separate] forall r Str :: forall q Str :: has(breakersClone, r) && has(breakersClone, q) && r != q && allocated(base(breakersClone[r])) && allocated(base(breakersClone[q])) ==> base(breakersClone[r]) != base(breakersClone[q])
 //@     invariant[valid-lists] allValidLists(validResRulesMap)
-//@     invariant[nothing-else-written] frame()
+//@     invariant[nothing-else-written]{seq} frame()
+//@     invariant[published-lists-untouched]{conc} forall r Str :: forall k Int :: old(has(pub, r)) && old(allocated(base(pub[r]))) && 0 <= k && k < len(old(pub[r])) ==> old(pub[r])[k] == old(pub[r][k])
 //@   loop 4:
 //@     invariant[new-table] newBreakers != nil && fresh(newBreakers)
 //@     invariant[clone-lists-are-private] forall r Str :: has(breakersClone, r) ==> fresh(base(breakersClone[r]))
+//@     invariant[clone-lists-allocated] forall r Str :: has(breakersClone, r) ==> allocated(base(breakersClone[r])) && base(breakersClone[r]) != 0
+//@     invariant[clone-lists-are-separate] forall r Str :: forall q Str :: has(breakersClone, r) && has(breakersClone, q) && r != q && allocated(base(breakersClone[r])) && allocated(base(breakersClone[q])) ==> base(breakersClone[r]) != base(breakersClone[q])
+//@     invariant[clone-domain] forall r Str :: (has(breakersClone, r) <==> has(breakers, r)) && (has(breakers, r) ==> len(breakersClone[r]) == len(breakers[r]))
 //@     invariant[valid-lists] allValidLists(validResRulesMap)
-//@     invariant[nothing-else-written] frame()
+//@     invariant[nothing-else-written]{seq} frame()
+//@     invariant[published-lists-untouched]{conc} forall r Str :: forall k Int :: old(has(pub, r)) && old(allocated(base(pub[r]))) && 0 <= k && k < len(old(pub[r])) ==> old(pub[r])[k] == old(pub[r][k])
 //@ func LoadRules(rules) (changed, err)
 //@   props C13
-//@   objinv breakers != nil && breakerRules != nil
+//@   objinv breakers != nil && breakerRules != nil && allocated(breakers) && allocated(breakerRules)
 //@   panics never
 //@   sets gCbLoadN = old(gCbLoadN) + 1
 //@   sets gCbLoadArg = rules
